@@ -210,10 +210,17 @@ theorem C18_uint64_overflow :
     hasType (.uint 64) (.int (2 ^ 63)) = true ∧ wrap true (.uint 64) (.int (2 ^ 63)) = .int (-(2 ^ 63)) ∧
     inst (typeOf (.uint 64)) (wrap true (.uint 64) (.int (2 ^ 63))) = false := ⟨by decide, by rfl, by decide⟩
 
-/-- known finding C18-float-inf-rejected: +Inf wraps to a Float that the derived Float type rejects -/
+/-- known finding C18-float-inf-rejected, what is left of it: +Inf held in a float32 wraps to a Float that the derived
+    Float[-MaxFloat32, MaxFloat32] rejects.  For float64 the defect is repaired (/repo fix "an unbounded Float includes the
+    infinities"): the derived type is the default Float, which has no bounds. -/
 theorem C18_float_inf_rejected :
-    hasType (.float 64) (.flt 0x7FF0000000000000) = true ∧
-    inst (typeOf (.float 64)) (wrap true (.float 64) (.flt 0x7FF0000000000000)) = false := by decide
+    hasType (.float 32) (.flt 0x7FF0000000000000) = true ∧
+    inst (typeOf (.float 32)) (wrap true (.float 32) (.flt 0x7FF0000000000000)) = false := by decide
+
+theorem C18_float64_inf_repaired :
+    hasType (.float 64) (.flt 0x7FF0000000000000) = true ∧ hasType (.float 64) (.flt 0xFFF0000000000000) = true ∧
+    inst (typeOf (.float 64)) (wrap true (.float 64) (.flt 0x7FF0000000000000)) = true ∧
+    inst (typeOf (.float 64)) (wrap true (.float 64) (.flt 0xFFF0000000000000)) = true := by decide
 
 /-- known finding C18-bytes-become-binary: `[]byte` wraps to a Binary that the derived Array[Integer[0,255]] rejects -/
 theorem C18_bytes_become_binary :
